@@ -111,7 +111,7 @@ static void runScn(const Scn& sc, const std::string* replay) {
 	};
 	if (replay) { vsched::Result x = vsched::run_once(vsched::parse_schedule(*replay), body, 50000); after(x); return; }
 	vsched::ExploreStats st = vsched::explore(body, after, sc.bound, 0, 50000);
-	vf::add(C_JOBS);
+	vf::add(C_JOBS); { static int cst = vf::counter("states"); vf::add(cst, st.distinct_states); }
 	if (getenv("VF_DEBUG")) fprintf(stderr, "%s: %llu executions, max %llu points\n", kase.c_str(), (unsigned long long)st.executions, (unsigned long long)st.max_points);
 }
 
@@ -120,6 +120,7 @@ int main(int argc, char** argv) {
 	C_EXEC = vf::counter("traces"); C_POINTS = vf::counter("transitions"); C_JOBS = vf::counter("scenarios"); vf::counter("states");
 	W_PREEMPT = vf::counter("w.executions_with_preemption"); W_SERVED = vf::counter("w.connections_served"); W_EARLYCLOSE = vf::counter("w.clients_closing_early"); W_LATE_REFUSED = vf::counter("w.late_clients_not_served");
 	vsched::set_fatal_handler(onFatal);
+	vsched::set_state_probe(vnet::state_hash);
 	bool T = vf::opt.thorough();
 	std::vector<Scn> sc;
 	for (int seq = 0; seq < 2; seq++) for (int ux = 0; ux < 2; ux++) {
@@ -134,7 +135,6 @@ int main(int argc, char** argv) {
 		return vf::finish();
 	}
 	vf::parallel(sc.size(), [&](uint64_t i) { if (vf::deadline_passed()) { vf::cap_hit("deadline"); return; } runScn(sc[i], 0); });
-	vf::add(vf::counter("states"), vf::get(C_POINTS));
 	vf::setinfo("scenarios", fmt("%d", (int)sc.size()));
 	vf::sample("srv.n1.m00.seq0.ux0.late1: start(true); client connects, sends '0', reads echo; stop(true); late client; delete server - all schedules with <= 1 preemption");
 	vf::sample("srv.n2.m12.seq1.ux1: sequential server on a Unix path, one client closes before sending, one after sending");
